@@ -1,7 +1,11 @@
 //! Shared helpers for the correspondence harness.
 pub mod prng;
 pub mod scriptfs;
+pub mod scriptfs_async;
 pub mod srvgen;
 pub mod srvoracle;
 pub mod util;
 pub mod vq;
+pub mod vfsrun;
+pub mod ovlhost;
+pub mod xscript;
